@@ -15,7 +15,7 @@ use crate::matconv::{from_spmat, to_spmat};
 use crate::sched::{self, Abort, Config};
 use vcore::refmat::RMat;
 use vcore::refnum::*;
-use vcore::{json, Run, Value};
+use vcore::{catch, json, Run, Value};
 use yui::Ratio;
 use yui_matrix::sparse::decomp::dir_sum_decomp;
 use yui_matrix::sparse::schur::Schur;
@@ -422,7 +422,17 @@ pub fn schedule_part(run: &Run) -> Out {
                 .collect();
             used.iter().map(|&x| find(&mut parent, x)).collect::<BTreeSet<_>>().len()
         };
+        // "the same value on one thread and on many": the value outside the explorer (the stand-in runs a
+        // parallel call inline there, i.e. one thread, items in order) is what every schedule must return -
+        // permuted matrix, block shapes and blocks, in this order (seed `C12-union-by-rank-schedule-dependent-order`:
+        // every schedule gave *a* valid decomposition, but the order of the summands depended on it)
+        let sequential = catch(|| body());
         let judge = |v: &(RMat<Z>, Vec<(usize, usize)>, Vec<RMat<Z>>)| -> Result<(), String> {
+            if let Ok(sv) = &sequential {
+                if sv != v {
+                    return Err(format!("value differs from the one-thread value: blocks {:?} vs {:?} (one thread)", v.1, sv.1));
+                }
+            }
             let (b, shapes, blocks) = v;
             if shapes.len() != comps {
                 return Err(format!("{} blocks, the bipartite graph has {comps} components", shapes.len()));
